@@ -485,9 +485,151 @@ theorem render_sections_ok (env : Env) (p : APel) (d : J) (hr : render env p = .
     intro sec hsec
     exact exceptAll_ok_mem _ js hjs _ (List.mem_map_of_mem hsec)
 
+/-! ### the registry message of the primary SRC (the `Message` member of a summary) -/
+
+theorem objGet?_append (a b : List (Text × J)) (k : Text) :
+    objGet? (a ++ b) k = match objGet? a k with
+      | some v => some v
+      | none => objGet? b k := by
+  induction a with
+  | nil => rfl
+  | cons p a ih =>
+    obtain ⟨k', v⟩ := p
+    by_cases hk : k' = k
+    · simp [objGet?, hk]
+    · simp [objGet?, hk, ih]
+
+theorem objGet?_none_of_keys (a : List (Text × J)) (k : Text) (h : ∀ p ∈ a, p.1 ≠ k) : objGet? a k = none := by
+  induction a with
+  | nil => rfl
+  | cons p a ih =>
+    obtain ⟨k', v⟩ := p
+    have hk : k' ≠ k := h (k', v) (by simp)
+    simp only [objGet?, hk, if_false]
+    exact ih (fun q hq => h q (by simp [hq]))
+
+theorem objGet?_append_none (a b : List (Text × J)) (k : Text) (h : ∀ p ∈ a, p.1 ≠ k) : objGet? (a ++ b) k = objGet? b k := by
+  rw [objGet?_append, objGet?_none_of_keys a k h]
+
+theorem objGet?_append_tailnone (a b : List (Text × J)) (k : Text) (h : ∀ p ∈ b, p.1 ≠ k) : objGet? (a ++ b) k = objGet? a k := by
+  rw [objGet?_append, objGet?_none_of_keys b k h]
+  cases objGet? a k <;> rfl
+
+theorem objGet?_objSet_isSome (l : List (Text × J)) (k' : Text) (v : J) (k : Text) (h : (objGet? l k).isSome = true) :
+    (objGet? (objSet l k' v) k).isSome = true := by
+  induction l with
+  | nil => simp [objGet?] at h
+  | cons p l ih =>
+    obtain ⟨k0, v0⟩ := p
+    by_cases h1 : k0 = k' <;> by_cases h2 : k0 = k <;> by_cases h3 : k' = k <;> simp_all [objSet, objGet?]
+
+theorem objGet?_objUpdate_isSome (l o : List (Text × J)) (k : Text) (h : (objGet? l k).isSome = true) :
+    (objGet? (objUpdate l o) k).isSome = true := by
+  unfold objUpdate
+  induction o generalizing l with
+  | nil => exact h
+  | cons p o ih => exact ih _ (objGet?_objSet_isSome l p.1 p.2 k h)
+
+/-- the `Message` member of the "Error Details" of an SRC, if it has them (BMC / power / hostboot SRCs with a registry entry) -/
+def srcMessage (env : Env) (x : ASrc) : Option J :=
+  if x.ascii.take 2 = s "BD" ∨ x.ascii.take 2 = s "11" ∨ x.ascii.take 2 = s "BC" then
+    match errorDetails env.src.registry x.ascii x.words with
+    | .some ms => objGet? ms (s "Message")
+    | _ => none
+  else none
+
+theorem errorDetails_has_message (reg : List RegEntry) (ascii : Text) (words : List Nat) (ms : List (Text × J))
+    (h : errorDetails reg ascii words = .some ms) : (objGet? ms (s "Message")).isSome = true := by
+  unfold errorDetails at h
+  split at h
+  · cases h
+  · split at h
+    · cases h
+    · cases h
+    · split at h
+      · cases h
+      · split at h
+        · cases h
+        · cases h
+        · cases h
+          exact objGet?_objUpdate_isSome _ _ _ (by simp [objGet?, kv])
+
+/-- the "Error Details" member of a rendered SRC -/
+theorem renderSrc_errorDetails (T : Tables) (env : SrcEnv) (h : AHdr) (creator : Text) (allow : Bool) (x : ASrc) :
+    ∃ L, renderSrc T env h creator allow x = .obj L ∧
+      objGet? L (s "Error Details") =
+        if x.ascii.take 2 = s "BD" ∨ x.ascii.take 2 = s "11" ∨ x.ascii.take 2 = s "BC" then
+          match errorDetails env.registry x.ascii x.words with
+          | .some ms => some (.obj ms)
+          | _ => none
+        else none := by
+  refine ⟨_, rfl, ?_⟩
+  have hhex : ∀ (f : Nat → J) (l : List Nat), ∀ p ∈ l.map (fun i => (s "Hex Word " ++ natDec i, f i)), p.1 ≠ s "Error Details" := by
+    intro f l p hp
+    obtain ⟨i, _, rfl⟩ := List.mem_map.1 hp
+    intro he
+    have := congrArg List.head? he
+    simp [s] at this
+  simp only [hdrMembers, List.append_assoc]
+  rw [objGet?_append_none _ _ _ (by simp [kv]; decide)]
+  rw [objGet?_append_none _ _ _ (by simp [kv]; decide)]
+  rw [objGet?_append_none _ _ _ (by split <;> simp [kv] <;> decide)]
+  rw [objGet?_append_tailnone _ _ _ (by
+    intro p hp
+    simp only [List.mem_append] at hp
+    rcases hp with hp | hp | hp | hp
+    · simp only [List.mem_cons, List.not_mem_nil, or_false] at hp
+      rcases hp with rfl | rfl <;> (simp only [kv]; decide)
+    · exact hhex _ _ p hp
+    · cases hc : x.callouts with
+      | none => simp [hc] at hp
+      | some cs =>
+        simp only [hc, List.mem_cons, List.not_mem_nil, or_false] at hp
+        subst hp; simp only [kv]; decide
+    · split at hp
+      · split at hp
+        · simp only [List.mem_cons, List.not_mem_nil, or_false] at hp
+          subst hp; simp only [kv]; decide
+        · simp at hp
+      · simp at hp)]
+  by_cases hc : x.ascii.take 2 = s "BD" ∨ x.ascii.take 2 = s "11" ∨ x.ascii.take 2 = s "BC"
+  · rw [if_pos hc, if_pos (by rcases hc with h | h | h <;> simp [h])]
+    rw [objGet?_append_none _ _ _ (by simp [kv]; decide)]
+    cases errorDetails env.registry x.ascii x.words <;> simp [objGet?, kv]
+  · rw [if_neg hc, if_neg (by intro h; apply hc; rcases h with (h | h) | h <;> simp [h])]
+    rfl
+
+/-- the summary loop's look-ups on the rendered SRC never raise and find the registry message -/
+theorem summaryMessage_renderSrc (env : Env) (h : AHdr) (creator : Text) (x : ASrc) (rest : Bytes) :
+    summaryMessage (renderSrc env.T env.src h creator env.allowPlugins x) rest = .ok (srcMessage env x, rest) := by
+  obtain ⟨L, hL, hg⟩ := renderSrc_errorDetails env.T env.src h creator env.allowPlugins x
+  rw [hL]
+  unfold summaryMessage srcMessage
+  simp only [jIn, jItem, hg]
+  by_cases hc : x.ascii.take 2 = s "BD" ∨ x.ascii.take 2 = s "11" ∨ x.ascii.take 2 = s "BC"
+  · simp only [hc, if_true]
+    cases hed : errorDetails env.src.registry x.ascii x.words with
+    | some ms =>
+      have hm := errorDetails_has_message _ _ _ ms hed
+      cases hmm : objGet? ms (s "Message") with
+      | none => simp [hmm] at hm
+      | some m => simp [hmm, jItem]; rfl
+    | none => rfl
+    | fail => rfl
+    | unsupported => rfl
+  · simp only [hc, if_false]
+    rfl
+
+def primSrc : ABody → Option ASrc
+  | .src true x => some x
+  | _ => none
+
+/-- the registry message of the first primary SRC -/
+def primaryMsg (env : Env) (secs : List ASection) : Option J := (secs.findSome? fun sec => primSrc sec.body).bind (srcMessage env)
+
 theorem summarySections_exact (env : Env) (creator : Text) : ∀ (secs : List ASection), (∀ sec ∈ secs, sec.WF) →
     (∀ sec ∈ secs, ∃ j, renderSection env creator sec = .ok j) → ∀ rest,
-    ∃ rest', summarySections env creator secs.length (secs.flatMap (·.enc) ++ rest) = .ok (primaryRc secs, rest')
+    ∃ rest', summarySections env creator secs.length (secs.flatMap (·.enc) ++ rest) = .ok ((primaryRc secs, primaryMsg env secs), rest')
   | [], _, _, rest => ⟨rest, rfl⟩
   | sec :: secs, hs, hr, rest => by
     have hw := hs sec (by simp)
@@ -502,20 +644,43 @@ theorem summarySections_exact (env : Env) (creator : Text) : ∀ (secs : List AS
     rw [e, List.length_cons]
     unfold summarySections
     rw [bind_ok _ _ _ _ _ (f1.exact _), bind_ok _ _ _ _ _ (f2.exact _)]
-    simp only [primaryRc, List.findSome?_cons]
+    simp only [primaryRc, primaryMsg, List.findSome?_cons]
     rcases body_summary_step sec.body hw.2.1 with ⟨h1, rc, h2, h3⟩ | ⟨h1, h2⟩
-    · rw [if_pos (show (mkSecHdr sec.body.id (8 + sec.body.enc.length) sec.hdr).id = sidPS from h1), h2, h3]
-      exact ⟨_, rfl⟩
+    · rw [if_pos (show (mkSecHdr sec.body.id (8 + sec.body.enc.length) sec.hdr).id = sidPS from h1), h3]
+      -- the section is a primary SRC: `j` is its rendering
+      obtain ⟨hdr, body⟩ := sec
+      cases body with
+      | src primary x =>
+        cases primary with
+        | false => simp [primOf] at h2
+        | true =>
+          simp only [renderSection] at hj
+          split at hj
+          · cases hj
+            simp only [primOf, primSrc, Option.bind_some] at h2 ⊢
+            cases h2
+            rw [bind_ok _ _ _ _ _ (summaryMessage_renderSrc env hdr creator x _)]
+            exact ⟨_, rfl⟩
+          · cases hj
+      | _ => simp [primOf] at h2
     · rw [if_neg (show ¬ (mkSecHdr sec.body.id (8 + sec.body.enc.length) sec.hdr).id = sidPS from h1), h2]
+      have h2' : primSrc sec.body = none := by
+        cases hb : sec.body with
+        | src primary x => cases primary <;> simp_all [primOf, primSrc]
+        | _ => rfl
+      rw [h2']
       exact ⟨rest', ih⟩
 
 theorem enc_eq (p : APel) (rest : Bytes) : p.enc ++ rest = encHdr sidPH 40 p.ph.hdr ++ (p.ph.encBody (p.sections.length + 2) ++
     (encHdr sidUH 16 p.uh.hdr ++ (p.uh.encBody ++ (p.sections.flatMap (·.enc) ++ rest)))) := by
   simp [APel.enc]
 
-def specFields (env : Env) (p : APel) (rc : Option Text) : List (Text × J) :=
+def specFields (env : Env) (p : APel) (rc : Option Text) (msg : Option J) : List (Text × J) :=
   (match rc with
     | some rc => [(s "SRC", J.str rc)]
+    | none => []) ++
+  (match msg with
+    | some m => [(s "Message", m)]
     | none => []) ++
   [(s "PLID", .str (ox (fmtHex 2 p.ph.plid))),
    (s "CreatorID", .str ((lookupT env.T.creators [p.ph.creator]).getD (s "Unknown"))),
@@ -582,7 +747,7 @@ theorem ite_hdr_id {α} (id len : Nat) (h : AHdr) (a b : α) : (if (mkSecHdr id 
 theorem parseSummaryRd_enc (env : Env) (cfg : SelCfg) (p : APel) (hp : p.WF) (hr : ∃ d, render env p = .ok d)
     (hsel : considerPEL p.uh.sev p.uh.af cfg = true) : ∃ rest',
     parseSummaryRd env cfg p.enc =
-      .ok (.summary { eid := ox (fmtHex 2 p.ph.eid), fields := specFields env p (primaryRc p.sections) } p.ph.plid
+      .ok (.summary { eid := ox (fmtHex 2 p.ph.eid), fields := specFields env p (primaryRc p.sections) (primaryMsg env p.sections) } p.ph.plid
         (primaryRc p.sections), rest') := by
   obtain ⟨hph, huh, hlen, hsecs⟩ := hp
   obtain ⟨d, hd⟩ := hr
@@ -611,7 +776,7 @@ theorem parseSummaryRd_enc (env : Env) (cfg : SelCfg) (p : APel) (hp : p.WF) (hr
 theorem parseSummary_sel (env : Env) (cfg : SelCfg) (p : APel) (hp : p.WF) (hr : ∃ d, render env p = .ok d)
     (hsel : considerPEL p.uh.sev p.uh.af cfg = true) :
     parseSummary env cfg p.enc =
-      .summary { eid := ox (fmtHex 2 p.ph.eid), fields := specFields env p (primaryRc p.sections) } p.ph.plid
+      .summary { eid := ox (fmtHex 2 p.ph.eid), fields := specFields env p (primaryRc p.sections) (primaryMsg env p.sections) } p.ph.plid
         (primaryRc p.sections) := by
   obtain ⟨rest', h⟩ := parseSummaryRd_enc env cfg p hp hr hsel
   unfold parseSummary
@@ -699,7 +864,7 @@ theorem countOne_enc (env : Env) (cfg : SelCfg) (p : APel) (hp : p.WF) (name : T
 theorem summaryOf_enc (env : Env) (cfg : SelCfg) (p : APel) (hp : p.WF) (hr : ∃ d, render env p = .ok d) (name : Text) :
     summaryOf env cfg { name := name, data := p.enc } =
       if considerPEL p.uh.sev p.uh.af cfg then
-        .some ({ eid := ox (fmtHex 2 p.ph.eid), fields := specFields env p (primaryRc p.sections) }, p.ph.plid,
+        .some ({ eid := ox (fmtHex 2 p.ph.eid), fields := specFields env p (primaryRc p.sections) (primaryMsg env p.sections) }, p.ph.plid,
           primaryRc p.sections)
       else .skip := by
   unfold summaryOf
@@ -780,22 +945,17 @@ theorem render_obj (env : Env) (p : APel) (d : J) (hr : render env p = .ok d) :
     simp only [render, hjs, Except.ok.injEq] at hr
     exact ⟨_, hr.symm⟩
 
-theorem specFields_get (env : Env) (p : APel) (rc : Option Text) :
-    objGet? (specFields env p rc) (s "PLID") = some (.str (ox (fmtHex 2 p.ph.plid))) ∧
-    objGet? (specFields env p rc) (s "CreatorID") = some (.str ((lookupT env.T.creators [p.ph.creator]).getD (s "Unknown"))) ∧
-    objGet? (specFields env p rc) (s "Commit Time") = some (.str (bcdTime p.ph.commit)) ∧
-    objGet? (specFields env p rc) (s "CompID") = some (.str (displayCompID env.T p.ph.hdr.comp [p.ph.creator])) ∧
-    objGet? (specFields env p rc) (s "Subsystem") = some (.str ((lookupN env.T.subsystems p.uh.subsys).getD (s "Invalid"))) ∧
-    objGet? (specFields env p rc) (s "Sev") = some (.str ((lookupN env.T.severities p.uh.sev).getD (s "Invalid"))) := by
-  cases rc with
-  | none =>
-    simp only [specFields, List.nil_append]
-    refine ⟨?_, ?_, ?_, ?_, ?_, ?_⟩ <;>
-      repeat (first | rw [objGet?_cons_eq] | rw [objGet?_cons_ne _ _ _ _ (by decide)])
-  | some r =>
-    simp only [specFields, List.cons_append, List.nil_append]
-    refine ⟨?_, ?_, ?_, ?_, ?_, ?_⟩ <;>
-      repeat (first | rw [objGet?_cons_eq] | rw [objGet?_cons_ne _ _ _ _ (by decide)])
+theorem specFields_get (env : Env) (p : APel) (rc : Option Text) (msg : Option J) :
+    objGet? (specFields env p rc msg) (s "PLID") = some (.str (ox (fmtHex 2 p.ph.plid))) ∧
+    objGet? (specFields env p rc msg) (s "CreatorID") = some (.str ((lookupT env.T.creators [p.ph.creator]).getD (s "Unknown"))) ∧
+    objGet? (specFields env p rc msg) (s "Commit Time") = some (.str (bcdTime p.ph.commit)) ∧
+    objGet? (specFields env p rc msg) (s "CompID") = some (.str (displayCompID env.T p.ph.hdr.comp [p.ph.creator])) ∧
+    objGet? (specFields env p rc msg) (s "Subsystem") = some (.str ((lookupN env.T.subsystems p.uh.subsys).getD (s "Invalid"))) ∧
+    objGet? (specFields env p rc msg) (s "Sev") = some (.str ((lookupN env.T.severities p.uh.sev).getD (s "Invalid"))) := by
+  cases rc <;> cases msg <;>
+  (simp only [specFields, List.cons_append, List.nil_append]
+   refine ⟨?_, ?_, ?_, ?_, ?_, ?_⟩ <;>
+     repeat (first | rw [objGet?_cons_eq] | rw [objGet?_cons_ne _ _ _ _ (by decide)]))
 
 theorem presentedGen_perm {α} (key : α → Text) (p : α → Bool) (l : List α) (rev : Bool) :
     (if rev then (sortBy key (l.filter p)).reverse else sortBy key (l.filter p)).Perm (l.filter p) := by
